@@ -5,17 +5,18 @@ From OP Require Import lib.Obs model.Interp model.InterpRun.
 Import ListNotations.
 Open Scope Z_scope.
 
-Section Transfer.
+Definition outcome_ok (P : S -> Prop) (o : outcome) : Prop :=
+  match o with Yield _ _ s' => P s' | Go _ s' => P s' | Raise _ s' => P s' end.
+
+(* one tick, with its environment fixed *)
+Section TransferTick.
   Variable p : program.
+  Variable e : env.
   Variable P : S -> Prop.
 
-  Definition outcome_ok (o : outcome) : Prop :=
-    match o with Yield _ _ s' => P s' | Go _ s' => P s' | Raise _ s' => P s' end.
-
-  Hypothesis P_step : forall e b f k s, P s -> outcome_ok (step p e b f k s).
+  Hypothesis P_step : forall b f k s, P s -> outcome_ok P (step p e b f k s).
   Hypothesis P_fail : forall s n, P s -> P (set_error (set_ns s n (set_failed (st s n) true)) n).
   Hypothesis P_ints : forall s i sr, P s -> P (with_ints s i sr).
-  Hypothesis P_cmd : forall s n, P s -> P (mark_completed s n).
   Hypothesis P_sched : forall s, P s -> P {| nodes := nodes s; ints := ints s; serial := serial s; last_error := last_error s;
                                              block_tag := block_tag s; scheduled := 0; marks := marks s |}.
 
@@ -25,11 +26,11 @@ Section Transfer.
     destruct f; try (eapply IH; eassumption). inversion U; subst. now apply P_fail.
   Qed.
 
-  Lemma next_gen_P fuel : forall e b k s r k' s', P s -> next_gen p fuel e b k s = Some (r, k', s') -> P s'.
+  Lemma next_gen_P fuel : forall b k s r k' s', P s -> next_gen p fuel e b k s = Some (r, k', s') -> P s'.
   Proof.
-    induction fuel as [|fuel IH]; intros e b k s r k' s' H N; cbn [next_gen] in N; [discriminate|].
+    induction fuel as [|fuel IH]; intros b k s r k' s' H N; cbn [next_gen] in N; [discriminate|].
     destruct k as [|f k]; [inversion N; subst; exact H|].
-    pose proof (P_step e b f k s H) as O. destruct (step p e b f k s) as [r0 k0 s0|k0 s0|k0 s0]; cbn [outcome_ok] in O.
+    pose proof (P_step b f k s H) as O. destruct (step p e b f k s) as [r0 k0 s0|k0 s0|k0 s0]; cbn [outcome_ok] in O.
     - inversion N; subst. exact O.
     - eapply IH; eassumption.
     - destruct (unwind k0 s0) as [[k3 s3]|] eqn:U.
@@ -37,15 +38,15 @@ Section Transfer.
       + inversion N; subst. exact O.
   Qed.
 
-  Lemma drive_P rounds : forall fuel e b k s k' s', P s -> drive p rounds fuel e b k s = Some (k', s') -> P s'.
+  Lemma drive_P rounds : forall fuel b k s k' s', P s -> drive p rounds fuel e b k s = Some (k', s') -> P s'.
   Proof.
-    induction rounds as [|rounds IH]; intros fuel e b k s k' s' H D; cbn [drive] in D; [discriminate|].
+    induction rounds as [|rounds IH]; intros fuel b k s k' s' H D; cbn [drive] in D; [discriminate|].
     destruct (next_gen p fuel e b k s) as [[[r k2] s2]|] eqn:N; [|discriminate].
-    pose proof (next_gen_P _ _ _ _ _ _ _ _ H N) as H2.
+    pose proof (next_gen_P _ _ _ _ _ _ _ H N) as H2.
     destruct r; try (inversion D; subst; exact H2). eapply IH; eassumption.
   Qed.
 
-  Lemma run_interrupts_P rounds fuel e snap : forall s s', P s -> run_interrupts p rounds fuel e snap s = Some s' -> P s'.
+  Lemma run_interrupts_P rounds fuel snap : forall s s', P s -> run_interrupts p rounds fuel e snap s = Some s' -> P s'.
   Proof.
     unfold run_interrupts.
     assert (G : forall snap os s', (forall s0, os = Some s0 -> P s0) ->
@@ -63,7 +64,7 @@ Section Transfer.
     intros s s' H F. eapply G; [|exact F]. intros s0 E. inversion E; subst. exact H.
   Qed.
 
-  Theorem tick_P rounds fuel e main s main' s' raised :
+  Theorem tick_P rounds fuel main s main' s' raised :
     P s -> tick p rounds fuel e main s = Some (main', s', raised) -> P s'.
   Proof.
     intros H T. unfold tick in T.
@@ -71,6 +72,19 @@ Section Transfer.
     destruct (run_interrupts p rounds fuel e (ints s1) s1) as [s2|] eqn:R; [|discriminate].
     inversion T; subst. eapply run_interrupts_P; [|exact R]. eapply drive_P; [|exact D]. now apply P_sched.
   Qed.
+
+End TransferTick.
+
+(* all ticks of a run *)
+Section Transfer.
+  Variable p : program.
+  Variable P : S -> Prop.
+  Hypothesis P_step : forall e b f k s, P s -> outcome_ok P (step p e b f k s).
+  Hypothesis P_fail : forall s n, P s -> P (set_error (set_ns s n (set_failed (st s n) true)) n).
+  Hypothesis P_ints : forall s i sr, P s -> P (with_ints s i sr).
+  Hypothesis P_cmd : forall s n, P s -> P (mark_completed s n).
+  Hypothesis P_sched : forall s, P s -> P {| nodes := nodes s; ints := ints s; serial := serial s; last_error := last_error s;
+                                             block_tag := block_tag s; scheduled := 0; marks := marks s |}.
 
   Lemma complete_cmds_P l : forall s, P s -> P (fold_left (complete_cmd p) l s).
   Proof.
@@ -98,6 +112,6 @@ Section Transfer.
     set (s1 := fold_left (complete_cmd p) (t_complete t) s).
     assert (H1 : P s1) by now apply complete_cmds_P.
     destruct (tick p (rounds_of p) (fuel_of p) _ main s1) as [[[main' s2] r]|] eqn:T; [|constructor].
-    pose proof (tick_P _ _ _ _ _ _ _ _ H1 T) as H2. constructor; [exact H2|now apply IH].
+    pose proof (tick_P p _ P (P_step _) P_fail P_ints P_sched _ _ _ _ _ _ _ H1 T) as H2. constructor; [exact H2|now apply IH].
   Qed.
 End Transfer.
